@@ -159,8 +159,8 @@ func ruleFramingReader(p *Program, r *Result) {
 		if call, ok := lenVal.(*ssa.Call); ok {
 			if f := call.Common().StaticCallee(); f != nil && f.Name() == "Uint32" && f.Pkg != nil && f.Pkg.Pkg.Path() == "encoding/binary" && strings.Contains(f.String(), "bigEndian") {
 				args := call.Common().Args
-				if sl, ok := args[len(args)-1].(*ssa.Slice); ok && sl.X == hbufBase(hbuf) || ok && sl.X == hbuf {
-					if lo, ok := constInt(sl.Low); ok && lo == 8 && sl.High == nil {
+				if sl, ok := args[len(args)-1].(*ssa.Slice); ok && sl.X == hbufBase(hbuf) || ok && sl.X == hbuf || ok && copiedAfter(sl.X, hbufBase(hbuf), hdrRead) {
+					if lo, ok := constInt(sl.Low); ok && lo == 8 && (sl.High == nil || isConstVal(sl.High, maxHdr)) {
 						lenOK = true
 					}
 				}
@@ -829,4 +829,42 @@ func be32OfOctets(v ssa.Value) (ssa.Value, int64, bool) {
 		return nil, 0, false
 	}
 	return base, k0, true
+}
+
+func isConstVal(v ssa.Value, want int64) bool {
+	c, ok := constInt(v)
+	return ok && c == want
+}
+
+// copiedAfter: dst is a local array whose only store is a copy of the whole array src, loaded after instruction
+// `after` (a header array handed by value to a helper that was folded in).
+func copiedAfter(dst, src ssa.Value, after ssa.Instruction) bool {
+	a, ok := dst.(*ssa.Alloc)
+	if !ok {
+		return false
+	}
+	sts := allocStores(a)
+	if len(sts) != 1 {
+		return false
+	}
+	u, ok := sts[0].Val.(*ssa.UnOp)
+	if !ok || u.Op != token.MUL || u.X != src {
+		return false
+	}
+	// nothing else writes into the copy
+	for _, rf := range refsOf(a) {
+		switch x := rf.(type) {
+		case *ssa.Store, *ssa.Slice, *ssa.DebugRef:
+		case *ssa.IndexAddr:
+			for _, r2 := range refsOf(x) {
+				if st, ok := r2.(*ssa.Store); ok && st.Addr == ssa.Value(x) {
+					return false
+				}
+			}
+		case *ssa.UnOp:
+		default:
+			return false
+		}
+	}
+	return domInstr(after, u)
 }
